@@ -12,6 +12,7 @@ output line:
   mac-body    decs accepted with a message other than the one the preceding bytes decode to
   mac-reject  decs rejected a correctly tagged buffer whose body decodes
   mac-enc     encs did not append HMAC(key, encoding)
+  sign-verify svs: decode_signed(encode_signed(m,k),k) differs from decode(encode(m))
   total       the implementation crashed (sanitizer report, signal) or threw on this op
   output      malformed output line
 -/
@@ -137,6 +138,18 @@ def stepCore (tok : List String) (impl : Option String) : Unit × String × Stri
   | "rts" :: key :: rest =>
     match bytesOfHex key, parseMsg rest with
     | some key, some m => ((), fmtOutcome (decodeSigned mac (encodeSigned mac m key) key), roundTripVerdict m impl)
+    | _, _ => ((), "bad-op", "ok")
+  | "svs" :: key :: rest =>
+    match bytesOfHex key, parseMsg rest with
+    | some key, some m =>
+      let a := fmtOutcome (decodeSigned mac (encodeSigned mac m key) key)
+      let b := fmtOutcome (decode (encode m))
+      let out := if a == b then "same" else "differ"
+      let verdict := match impl with
+        | none => "ok"
+        | some "same" => "ok"
+        | some _ => "viol:sign-verify:signing and verifying does not give what plain encoding and decoding gives"
+      ((), out, verdict)
     | _, _ => ((), "bad-op", "ok")
   | ["dec", h] =>
     match bytesOfHex h with
